@@ -514,6 +514,26 @@ func C10Scenario() *Scenario {
 				}
 				return false
 			}}
+		if t.Pick(4, "conflictstorm") == 3 {
+			// another writer keeps touching one parent: every update of it inside a sync
+			// is refused as a conflict, for as many attempts in a row as drawn here (more
+			// than any one retry loop makes)
+			storm := map[string]int{}
+			limit := 4 + t.Pick(6, "stormlen")
+			victim := parents[t.Pick(len(parents), "stormvictim")]
+			pol.ForceFault = func(r *ReqRec) string {
+				if r.Sync < 0 || r.Verb != "update" || r.Sub != "" || r.Res != victim.Res || r.NS != victim.NS || r.Name != victim.Name {
+					return ""
+				}
+				if storm[r.Name] >= limit {
+					return ""
+				}
+				storm[r.Name]++
+				w.Probe("c10:conflict-storm-409")
+				return "409"
+			}
+			w.Cfg["conflictStorm"] = fmt.Sprint(limit)
+		}
 		w.Cfg["policy"] = fmt.Sprintf("hold=%d fault=%d", pol.HoldWatch, pol.APIFault)
 		w.Cfg["ckind"] = ctl.kind
 		w.Stages = append(scripted,
